@@ -9,7 +9,7 @@
                       panic, and the implementation's own print-then-parse
                       returns the value it had accepted) *)
 From Coq Require Import List NArith Bool.
-From SNT Require Export Base.Outcome Base.Report Keys.KeyMap Keys.KeyParse.
+From SNT Require Export Base.Outcome Base.Report Keys.KeyMap Keys.KeyParse Keys.KeyParseProofs.
 Import ListNotations.
 Local Open Scope N_scope.
 
@@ -128,38 +128,77 @@ Definition same_bindings (impl spec : list (list key * N)) : bool :=
   && forallb (fun p => mem_binding p spec) impl
   && forallb (fun p => mem_binding p impl) spec.
 
-(* does the implementation's observation satisfy the property, given the dictionaries? *)
-Definition spec_step (s : sstate) (o : op) (impl : obs) : sstate * bool :=
-  match o with
-  | ORegister m c v =>
-      (set_d s m (reg key_cmp c v (get_d s m)),
-       match impl with BOld _ => true | _ => false end)
-  | OLookup m c =>
-      (s, match c, impl with
-          | [], BRes _ => true         (* the property speaks of non-empty chords *)
-          | _, BRes r => res_eqb (spec_lookup key_cmp (get_d s m) c) r
-          | _, _ => false
+(* ---- the matcher clauses of the property, evaluated on the stream of handle() observations.
+   Nothing below runs spec_handle or the code's two-pass loop: the clauses are read off the
+   dictionary and the implementation's answers.
+
+   steps: the maximal run of consecutive handle() calls on one map starting here
+          (key typed, lookup_state's answer, KeyMapHandler::handle's answer) *)
+Definition hstep := (key * option N * option N)%type.
+
+Fixpoint handle_run (m : N) (ops : list op) (impl : list obs) : list hstep :=
+  match ops, impl with
+  | OHandle m' k :: r, BHandle f _ h :: bs => if m' =? m then (k, f, h) :: handle_run m r bs else []
+  | _, _ => []
+  end.
+
+Definition is_none {A} (o : option A) : bool := match o with None => true | Some _ => false end.
+
+(* the next n answers are: nothing n-1 times, then v *)
+Fixpoint fired_pattern (n : nat) (v : N) (steps : list hstep) : bool :=
+  match n, steps with
+  | S O, (_, f, h) :: _ => opt_eqb N.eqb f (Some v) && opt_eqb N.eqb h (Some v)
+  | S n', (_, f, h) :: r => is_none f && is_none h && fired_pattern n' v r
+  | _, _ => false
+  end.
+
+(* every bound chord that the coming keys spell out fires exactly at its last key *)
+Definition chords_fire (d : dc) (steps : list hstep) : bool :=
+  let keys := map (fun s => fst (fst s)) steps in
+  forallb (fun p => if is_prefix key_cmp (fst p) keys
+                    then fired_pattern (length (fst p)) (snd p) steps else true) d.
+
+Definition begins_none (d : dc) (u : key) : bool :=
+  forallb (fun p => match fst p with k :: _ => negb (key_eqb k u) | [] => true end) d.
+
+(* one handle() call: `pending` is the implementation's chord vector before the call *)
+Definition english_step (d : dc) (pending : list key) (steps : list hstep) : bool :=
+  match steps with
+  | [] => true
+  | (k, f, _) :: rest =>
+      (* typed from an idle state, a bound chord fires exactly at its last key *)
+      (match pending with [] => chords_fire d steps | _ => true end)
+      (* an unbound key never prevents the chord typed immediately after it from firing *)
+      && (if begins_none d k then chords_fire d rest else true)
+      (* and only bound chords fire: the pending keys plus this key, or this key alone *)
+      && (match f with
+          | Some v => mem_binding (pending ++ [k], v) d || mem_binding ([k], v) d
+          | None => true
           end)
-  | OForEach m =>
-      (s, match impl with BList l => same_bindings l (get_d s m) | _ => false end)
-  | OOverride d r =>
-      (set_d s d (spec_override key_cmp (get_d s d) (get_d s r)),
-       match impl with BUnit => true | _ => false end)
-  | OHandle m k =>
-      let '(st, f) := spec_handle key_cmp (get_d s m) (get_t s m) k in
-      (set_t s m st,
-       match impl with
-       | BHandle f' st' h' => opt_eqb N.eqb f f' && chord_eq st st' && opt_eqb N.eqb f h'
-       | _ => false
-       end)
-  | OClear m =>
-      (set_t (set_d s m []) m [], match impl with BUnit => true | _ => false end)
+  end.
+
+(* does the implementation's observation satisfy the property, given the dictionaries?
+   (t0 / t1 of the state: the implementation's own chord vector after its last handle call) *)
+Definition spec_step (s : sstate) (o : op) (ops : list op) (impl : list obs) : sstate * bool :=
+  match o, impl with
+  | ORegister m c v, BOld _ :: _ => (set_d s m (reg key_cmp c v (get_d s m)), true)
+  | OLookup m c, BRes r :: _ =>
+      (s, match c with
+          | [] => true                (* the property speaks of non-empty chords *)
+          | _ => res_eqb (spec_lookup key_cmp (get_d s m) c) r
+          end)
+  | OForEach m, BList l :: _ => (s, same_bindings l (get_d s m))
+  | OOverride d r, BUnit :: _ => (set_d s d (spec_override key_cmp (get_d s d) (get_d s r)), true)
+  | OHandle m k, BHandle _ st' _ :: _ =>
+      (set_t s m st', english_step (get_d s m) (get_t s m) (handle_run m ops impl))
+  | OClear m, BUnit :: _ => (set_t (set_d s m []) m [], true)
+  | _, _ => (s, false)
   end.
 
 Fixpoint spec_exec (s : sstate) (ops : list op) (impl : list obs) : bool :=
   match ops, impl with
   | [], [] => true
-  | o :: r, b :: bs => let '(s', ok) := spec_step s o b in ok && spec_exec s' r bs
+  | o :: r, _ :: bs => let '(s', ok) := spec_step s o ops impl in ok && spec_exec s' r bs
   | _, _ => false
   end.
 
@@ -222,8 +261,20 @@ Inductive c18_case :=
 | CParse (k : pkind) (s : str) (tbl : list (str * str))
          (parsed : pout) (printed : str) (reparsed : pout)
     (* parsed = s.parse(); when Ok(v): printed = v.to_string(), reparsed = printed.parse() *)
-| CPrint (v : pval) (printed : str).
-    (* Display of an arbitrary value (including ones the parser never returns) *)
+| CPrint (v : pval) (printed : str) (tbl : list (str * str)) (reparsed : pout).
+    (* Display of an arbitrary value (including ones the parser never returns), and FromStr of that *)
+
+(* the values the parsers can return (decidable form of key_canon, Keys/KeyParseProofs.v) *)
+Definition key_canonb (k : key) : bool :=
+  name_canonb (kname k) && (kmode k <? 512) && (N.land (kmode k) 128 =? 0).
+Definition pval_canonb (v : pval) : bool :=
+  match v with
+  | VName n => name_canonb n
+  | VKey k => key_canonb k
+  | VChord ks => forallb key_canonb ks && negb (match ks with [] => true | _ => false end)
+  end.
+Definition kind_of (v : pval) : pkind :=
+  match v with VName _ => PName | VKey _ => PKey | VChord _ => PChord end.
 
 Definition init_m := MS TNil [] TNil [].
 Definition init_s := SS [] [] [] [].
@@ -247,8 +298,13 @@ Definition c18_check (c : c18_case) : bool * bool :=
           | POk v => pout_eqb reparsed (POk v)
           | _ => true
           end)
-  | CPrint v printed =>
-      (str_eqb (model_print v) printed, true)
+  | CPrint v printed tbl reparsed =>
+      (str_eqb (model_print v) printed
+       && forallb oracle_entry_ok tbl
+       && pout_eqb (model_parse (table_lower tbl) (kind_of v) printed) reparsed,
+       (* printing then parsing never panics, and returns the value whenever it is one a parser can return *)
+       negb (pout_eqb reparsed PPanic)
+       && (if pval_canonb v then pout_eqb reparsed (POk v) else true))
   end.
 
 Definition c18_report := report c18_check.
